@@ -157,6 +157,14 @@ def z_repr(x):
         raise ZXError('repr() of symbolic value')
     if isinstance(x, (list, tuple, dict)) and _deep_sym(x):
         raise ZXError('repr() of a container holding symbolic values')
+    # an object of the code under analysis: its own __repr__ may build a text with symbolic parts (builtins.repr would reject a non-str result)
+    t = type(x)
+    if getattr(t, '__module__', '').startswith(('ssh_audit', 'zxh_')):
+        for k in t.__mro__:
+            if k is object or not getattr(k, '__module__', '').startswith(('ssh_audit', 'zxh_')):
+                break
+            if '__repr__' in k.__dict__:
+                return k.__dict__['__repr__'](x)
     return builtins.repr(x)
 
 
